@@ -245,7 +245,7 @@ class PolyChordOptimizer(Optimizer):
                 for idx in range(len(self.fit_names)):
                     # cycle through parameters
                     # maximum likelihood values
-                    stats['modes'][midx]['maximum a posterior'][idx] = data[mL_idx, 2+idx]
+                    stats['modes'][midx]['maximum a posterior'][idx] = data[mL_idx[0][0], 2+idx]
                     # weighted average and sigma
                     mu, sig = weighted_avg_and_std(data[:, 2+idx], data[:, 0])
                     stats['modes'][midx]['mean'][idx] = mu
